@@ -350,6 +350,22 @@ def _try_witnesses(case, witnesses, out, seen, why):
             out["violations"].append(rec)
 
 
+STOPPED = "stopped: a violation was confirmed, exploration cut short"
+
+
+def _deadline(opts):
+    stop, dl = opts.get("stop"), opts.get("deadline")
+    if stop is None:
+        return dl
+
+    def f():
+        s = stop.value
+        if s:
+            return (s, STOPPED)
+        return dl
+    return f
+
+
 def run_item(case, root, tier, seed, opts, out, donate=None):
     """Explore the subtree of `case` below decision prefix `root`, adding to
     the per-case statistics dict `out`."""
@@ -388,6 +404,14 @@ def run_item(case, root, tier, seed, opts, out, donate=None):
         finally:
             inst.resume()
         out["crossval"] += 1
+        if pr.violations and opts.get("stop") is not None:
+            confirmed = {cv.key for cv in cviol} & {v.key for v in pr.violations}
+            if confirmed - opts.get("known_keys", set()):
+                # a replay-confirmed violation that is not a listed finding decides the run: finish the
+                # paths in flight for a short while (more witnesses for the report), then stop
+                with opts["stop"].get_lock():
+                    if opts["stop"].value == 0.0:
+                        opts["stop"].value = time.time() + opts.get("stop_grace", 10.0)
         clab = clabel if isinstance(clabel, str) else repr(clabel)
         if clab != lab:
             errors.append("crossval label mismatch in %s: symbolic %r concrete %r inputs=%r"
@@ -413,7 +437,7 @@ def run_item(case, root, tier, seed, opts, out, donate=None):
             state["inst"] = inst
             ctx, status = core.explore(
                 case.body, root=root, donate=donate, before_path=inst.guard.restore,
-                max_paths=case.max_paths, deadline=opts.get("deadline"), on_path=on_path,
+                max_paths=case.max_paths, deadline=_deadline(opts), on_path=on_path,
                 timeout_ms=case.timeout_ms,
                 smt_dump=smt_dump if second_frac > 0 else None)
         out["paths"] += ctx.paths
@@ -506,8 +530,13 @@ def worker_main(wid, nworkers, modname, tier, seed, opts, work_q, result_q, pend
             out = stats.get(case.name)
             if out is None:
                 out = stats[case.name] = _new_stats(case.name)
-            run_item(case, root, tier, seed, opts, out,
-                     donate=donate if nworkers > 1 else None)
+            stop = opts.get("stop")
+            if stop is not None and stop.value and time.time() > stop.value:
+                if out["status"] == "exhausted":
+                    out["status"] = STOPPED
+            else:
+                run_item(case, root, tier, seed, opts, out,
+                         donate=donate if nworkers > 1 else None)
             with pending.get_lock():
                 pending.value -= 1
     except BaseException as e:  # noqa
@@ -557,6 +586,9 @@ def run_property(prop, modname, tier, seed, meta, jobs=None, budget_s=None):
         opts["deadline"] = t0 + budget_s
     jobs = jobs or int(os.environ.get("VERIF_JOBS", "0")) or min(16, os.cpu_count() or 1)
     mp = multiprocessing.get_context("fork")
+    if not os.environ.get("VERIF_NO_EARLY_STOP"):
+        opts["stop"] = mp.Value("d", 0.0)
+        opts["known_keys"] = set(k for k, _ in load_known(prop))
     work_q, result_q = mp.Queue(), mp.Queue()
     pending = mp.Value("i", len(cases))
     order = sorted(range(len(cases)), key=lambda i: -getattr(cases[i], "weight", 1))
@@ -595,7 +627,7 @@ def run_property(prop, modname, tier, seed, meta, jobs=None, budget_s=None):
            "crossval": 0, "nontrivial": 0}
     labels, functions, samples, notes = {}, functions_all, [], {}
     second = {"checked": 0, "agree": 0}
-    bad, violations, per_case = [], [], {}
+    bad, violations, per_case, stopped = [], [], {}, []
     for r in results:
         for k in agg:
             agg[k] += r[k]
@@ -612,12 +644,16 @@ def run_property(prop, modname, tier, seed, meta, jobs=None, budget_s=None):
         pc["paths"] += r["paths"]
         pc["wall_s"] = round(pc["wall_s"] + r["wall_s"], 2)
         pc["queries"] += r["queries"]
-        if r["status"] != "exhausted":
+        if r["status"] == STOPPED:
+            stopped.append(r["case"])
+        elif r["status"] != "exhausted":
             bad.append((r["case"], r["items"], r["status"]))
         violations.extend(r["violations"])
     for c in cases:
-        if per_case.get(c.name, {}).get("paths", 0) == 0:
+        if per_case.get(c.name, {}).get("paths", 0) == 0 and not stopped:
             bad.append((c.name, 0, "vacuous: no feasible path reached the end of the harness"))
+    if stopped:
+        notes["cases-cut-short-after-a-confirmed-violation"] = len(set(stopped))
 
     # ---- fresh-process confirmation.  A counterexample that did not reproduce inside the worker, or a
     # path whose concrete cross-validation failed there, may have been disturbed by state the code under
@@ -706,6 +742,9 @@ def run_property(prop, modname, tier, seed, meta, jobs=None, budget_s=None):
         exit_code = 1 if exit_code == 0 else exit_code
     if new and exit_code == 2:
         exit_code = 1
+    if stopped and not new:
+        lines.append("INCONCLUSIVE property=%s exploration was cut short but no new violation was confirmed" % prop)
+        exit_code = 2
 
     # ---- evidence
     samples.sort(key=lambda s: (s["case"], json.dumps(s["inputs"], sort_keys=True)))
